@@ -160,6 +160,25 @@ func c19Ops() []c19Op {
 			return nil
 		}})
 	}
+	// a soft resource bound to the collection's own *Type (legal: SetType(col.Type))
+	ops = append(ops, c19Op{name: "Add(R7 sharing the collection's *Type)", do: func(y *c19Sys) error {
+		r := &j.SoftResource{Type: y.col.Type}
+		r.Set("id", "7")
+		r.Set("a", "sh")
+		y.orig["R7shared"] = r
+		snapshot := &j.SoftResource{Type: func() *j.Type { t := y.col.Type.Copy(); return &t }()}
+		snapshot.Set("id", "7")
+		snapshot.Set("a", "sh")
+		y.col.Add(r)
+		y.m.add(snapshot)
+		return nil
+	}}, c19Op{name: "original R7 .Set(a) .Set(id)", do: func(y *c19Sys) error {
+		if r := y.orig["R7shared"]; r != nil {
+			r.Set("a", "MUTATED")
+			r.Set("id", "MUTATED")
+		}
+		return nil
+	}})
 	for _, id := range []string{"1", "2", "9"} {
 		id := id
 		ops = append(ops, c19Op{name: "Remove(" + id + ")", do: func(y *c19Sys) error {
@@ -408,7 +427,7 @@ func c19BFS(c *Ctx) *mc.BFS {
 func init() {
 	Register(&Prop{
 		ID: "C19",
-		Rule: "Engine B: breadth-first search over ALL histories (depth <= 4 quick / 5 thorough) of 19 operations on a real SoftCollection whose type has been set: Add of 7 resources (same type, second id, duplicate id, narrower, wider, conflicting kind/cardinality for the same field name, wrapped struct), Remove(1|2|9), AddAttr(new|duplicate|invalid), AddRel(new|duplicate), SetType(same pointer|new type), Set on the original resources after they were added; de-duplicated by deep snapshot. After every step Len, At(-1..Len), Resource(id), GetType and Get of every current field of every stored resource are compared with a list model (order, ids, well-typed values snapshotted at Add, zero for later fields). Every state beyond the initial one is non-trivial",
+		Rule: "Engine B: breadth-first search over ALL histories (depth <= 4 quick / 5 thorough) of 21 operations on a real SoftCollection whose type has been set: Add of 7 resources (same type, second id, duplicate id, narrower, wider, conflicting kind/cardinality for the same field name, wrapped struct), Remove(1|2|9), AddAttr(new|duplicate|invalid), AddRel(new|duplicate), SetType(same pointer|new type), Set on the original resources after they were added; de-duplicated by deep snapshot. After every step Len, At(-1..Len), Resource(id), GetType and Get of every current field of every stored resource are compared with a list model (order, ids, well-typed values snapshotted at Add, zero for later fields). Every state beyond the initial one is non-trivial",
 		Assumptions: []string{"after SetType(new type) values of fields that keep name and kind are expected to be retained (natural reading; only the field set is stated)", "only later Set calls on the original are judged, not in-place mutation of its slices"},
 		Harnesses: []Harness{{Name: "C19/histories",
 			Custom: func(c *Ctx) {
